@@ -152,6 +152,7 @@ pub fn run_satisfied(commit_cmr: Cmr, unit_to_unit: bool, s: &SatisfiedProgram, 
     let insp = catch(|| {
         let mut ok = true;
         let mut consistent = true;
+        let mut kinds_by_ihr: std::collections::HashMap<simfony::simplicity::Ihr, std::collections::BTreeSet<u8>> = std::collections::HashMap::new();
         let mut assert_l: Vec<Cmr> = vec![];
         let mut assert_r: Vec<Cmr> = vec![];
         let (mut n, mut ncase, mut nwit, mut wbits) = (0usize, 0usize, 0usize, 0usize);
@@ -179,17 +180,24 @@ pub fn run_satisfied(commit_cmr: Cmr, unit_to_unit: bool, s: &SatisfiedProgram, 
                 }
                 Inner::AssertL(..) => {
                     assert_l.push(item.node.cmr());
+                    kinds_by_ihr.entry(item.node.ihr()).or_insert_with(std::collections::BTreeSet::new).insert(1u8);
                     ncase += 1
                 }
                 Inner::AssertR(..) => {
                     assert_r.push(item.node.cmr());
+                    kinds_by_ihr.entry(item.node.ihr()).or_insert_with(std::collections::BTreeSet::new).insert(2u8);
                     ncase += 1
                 }
-                Inner::Case(..) => ncase += 1,
+                Inner::Case(..) => {
+                    kinds_by_ihr.entry(item.node.ihr()).or_insert_with(std::collections::BTreeSet::new).insert(0u8);
+                    ncase += 1
+                }
                 _ => {}
             }
         }
-        let mirror = assert_l.iter().any(|c| assert_r.contains(c));
+        // nodes of different kind (case / assertl / assertr) that the dependency gives the same
+        // identity hash: its encoder shares nodes by that hash, so one of them replaces the other
+        let mirror = kinds_by_ihr.values().any(|k| k.len() >= 2) || assert_l.iter().any(|c| assert_r.contains(c));
         (ok, consistent, mirror, n, ncase, nwit, wbits)
     });
     let (witness_typing_ok, witness_values_consistent, mirror_asserts, n_nodes, n_case, n_witness, witness_bits) = match insp {
